@@ -44,7 +44,7 @@ Definition sframe (s s' : Sim) : Prop :=
 (* a request of s' that names a vehicle other than `but` is a request of s naming it, with the same membership *)
 Definition rframe (but : option id) (s s' : Sim) : Prop :=
   forall rid q' u, find rid (requests s') = Some q' -> r_disp q' = Some u -> Some u <> but ->
-    exists q, find rid (requests s) = Some q /\ r_disp q = Some u /\ r_mem q = r_mem q'.
+    exists q, find rid (requests s) = Some q /\ r_disp q = Some u /\ r_mem q = r_mem q' /\ r_pos q = r_pos q'.
 
 Lemma ssim_refl x : ssim x x. Proof. repeat split. Qed.
 Lemma bsim_refl x : bsim x x. Proof. repeat split. Qed.
@@ -64,7 +64,7 @@ Lemma rframe_sub but s s' : rsub s s' -> rframe but s s'.
 Proof. intros Sub rid q u F D _. exists q. auto. Qed.
 Lemma rframe_trans but a b c : rframe but a b -> rframe but b c -> rframe but a c.
 Proof.
-  intros R1 R2 rid q u F D N. destruct (R2 _ _ _ F D N) as (q1 & F1 & D1 & M1). destruct (R1 _ _ _ F1 D1 N) as (q0 & F0 & D0 & M0).
+  intros R1 R2 rid q u F D N. destruct (R2 _ _ _ F D N) as (q1 & F1 & D1 & M1 & P1). destruct (R1 _ _ _ F1 D1 N) as (q0 & F0 & D0 & M0 & P0).
   exists q0. repeat split; congruence.
 Qed.
 Lemma rframe_weaken s s' but : rframe None s s' -> rframe but s s'.
@@ -228,7 +228,7 @@ Lemma others_placed s s' vid : Inv_place s -> vkeys s -> sframe s s' -> rframe (
 Proof.
   intros (_ & _ & I) K Fr Rf Oth k u N Fu. rewrite Oth in Fu by exact N.
   apply (placed_frame s s' u Fr); [|eapply I; eauto].
-  intros rid route _ q' Fq Dq. apply (Rf rid q' (v_id u) Fq Dq). rewrite (K _ _ Fu). congruence.
+  intros rid route _ q' Fq Dq. destruct (Rf rid q' (v_id u) Fq Dq) as (q & A1 & B1 & C1 & _); [rewrite (K _ _ Fu); congruence|eauto].
 Qed.
 Lemma Inv_place_step s s' vid : Inv_place s -> vkeys s -> sframe s s' -> skeys (stations s') -> bkeys (bases s') ->
   rframe (Some vid) s s' -> (forall k, k <> vid -> find k (vehicles s') = find k (vehicles s)) ->
@@ -241,7 +241,7 @@ Lemma Inv_place_ext s s' : vehicles s' = vehicles s -> stations s' = stations s 
 Proof.
   intros V S B Rf (SK & BK & I). split; [rewrite S; exact SK|]. split; [rewrite B; exact BK|].
   intros k u Fu. rewrite V in Fu. apply (placed_frame s s' u (sframe_same _ _ S B)); [|eapply I; eauto].
-  intros rid route _ q' Fq Dq. apply (Rf rid q' (v_id u) Fq Dq). discriminate.
+  intros rid route _ q' Fq Dq. destruct (Rf rid q' (v_id u) Fq Dq) as (q & A1 & B1 & C1 & _); [discriminate|eauto].
 Qed.
 
 (* ---------- the vehicle that enters ---------- *)
